@@ -29,8 +29,19 @@ func runC07(r *Run, p *Prog) {
 		r.Unresolved("G3", why)
 		return
 	}
-	root := "generateTemplate"
+	root := generatorRoot(p)
 	w, end, why2 := RunGenWalker(p, m, root)
+	stmtTextOf = nil
+	if w != nil {
+		stmtTextOf = func(st ast.Stmt) (string, bool) {
+			es, ok := st.(*ast.ExprStmt)
+			if !ok {
+				return "", false
+			}
+			t, ok := w.StmtText[es]
+			return t, ok
+		}
+	}
 	if w == nil {
 		r.Unresolved("G3", why2)
 		return
@@ -477,7 +488,19 @@ func constParts(info *types.Info, e ast.Expr) []string {
 	return []string{"\x00"}
 }
 
+// stmtTextOf: the text a statement of the template emits, as recorded by the walker (whatever the statement is: a
+// WriteString, a call of a line helper, a Fprintf); "" if unknown.
+var stmtTextOf func(st ast.Stmt) (string, bool)
+
 func lastConstOf(info *types.Info, st ast.Stmt) string {
+	if stmtTextOf != nil {
+		if t, ok := stmtTextOf(st); ok {
+			if i := strings.LastIndex(t, "\x00"); i >= 0 {
+				return t[i+1:]
+			}
+			return t
+		}
+	}
 	ps := constParts(info, writeArg(st))
 	if len(ps) == 0 || ps[len(ps)-1] == "\x00" {
 		return ""
@@ -486,6 +509,14 @@ func lastConstOf(info *types.Info, st ast.Stmt) string {
 }
 
 func firstConstOf(info *types.Info, st ast.Stmt) string {
+	if stmtTextOf != nil {
+		if t, ok := stmtTextOf(st); ok {
+			if i := strings.Index(t, "\x00"); i >= 0 {
+				return t[:i]
+			}
+			return t
+		}
+	}
 	ps := constParts(info, writeArg(st))
 	if len(ps) == 0 || ps[0] == "\x00" {
 		return ""
